@@ -96,6 +96,7 @@ Inductive cmd :=
 | CRoMut (name : string) (comp : Compression) (force : bool) (unlink_checked : bool)
 | CRwMut (name : string)
 | CNoMut (name : string) (ro : bool)
+| CMutIn (name : string) (unlink_checked : bool)
 | CBattery | CFlush | CClose
 | CHold (kind : string) (n : nat)
 | CDrop (kind : string) (n : nat)
@@ -313,6 +314,15 @@ Definition sstep (st : sstate) (c : cmd) : sstate * answer * spec :=
           | _ => (st, AnsOk ([AStr name; AStr "OPENFAIL"] ++ (if ro then [AStr "sha-same"] else [])), SameAsModel)
           end
       end
+  | CMutIn name uc =>
+      with_sess st (fun ss =>
+        let h := fst (hstep (x_h st) (HCall (data (fo (x_h st))))) in
+        let st' := mkS (x_fs st) (x_sess st) h (x_held st) (x_snap st) (x_mutated st || negb (is_ro (s_mode _ ss)))
+                       (x_sha st) (x_written st) (x_points st) in
+        let verdict := match mutate tree smut Z s_apply s_cls uc ss (MNamed name) with
+                       | Ok _ => "OK" | Err _ => "ERR" | UB _ => "HANG" end in
+        (st', AnsOk ([AStr name; AStr verdict] ++ status h),
+         if is_ro (s_mode _ ss) then Spec (AnsOk ([AStr name; AStr "ERR"] ++ status opened)) else AnyAnswer))
   | CBattery => with_sess st (fun _ => (st, AnsOk [AStr "battery"], SameAsModel))
   | CFlush =>
       with_sess st (fun ss =>
